@@ -32,7 +32,7 @@ CHECKS = {
             'buffer size classes; oracles: worker survives, identical float32 bit pattern across histories/processes, agreement with '
             'the sample-only model, bit-identical score after altering feature values outside the sampled rows.',
             'No sanitizer for JIT code: out-of-bounds reads are visible only via crashes, non-determinism or model disagreement. '
-            'r*n within 1e-4 of an integer excluded (float32 floor ambiguity).', 'DESIGN.md §3 C04'),
+            'r is read as the float32 value the estimator receives (floor of the exact product).', 'DESIGN.md §3 C04'),
     'C05': ('Hypothesis string frames x documented heuristic names: differential against direct computation on harness-side codes',
             'Exploration: generated batches (empty strings, unicode, digit ids, cardinalities beyond int8/int16 codes, dependent columns) '
             'are scored through mixed_rank_graph with every documented non-surrogate heuristic name (scanned from the docs/scripts at run '
